@@ -33,6 +33,37 @@ import (
 
 func init() {
 	register("locknest", kindLockNest)
+	register("callargs", kindCallArgs)
+}
+
+// kind "callargs": the argument expressions (source text) of the calls to `callee` (e.g. "diskqueue.New")
+// inside one function: def <name> : List (List String).
+func kindCallArgs(c *Ctx, it Item) (string, error) {
+	p, fd, err := c.FindFunc(it.Str("dir"), it.Str("func"))
+	if err != nil {
+		return "", err
+	}
+	callee := it.Str("callee")
+	var rows []string
+	ast.Inspect(fd.Body, func(n ast.Node) bool {
+		ce, ok := n.(*ast.CallExpr)
+		if !ok {
+			return true
+		}
+		if exprText(p.Fset, ce.Fun) != callee {
+			return true
+		}
+		var args []string
+		for _, a := range ce.Args {
+			args = append(args, exprText(p.Fset, a))
+		}
+		rows = append(rows, leanStrList(args))
+		return true
+	})
+	if len(rows) == 0 {
+		return "", fmt.Errorf("no call of %s in %s", callee, it.Str("func"))
+	}
+	return fmt.Sprintf("def %s : List (List String) := [\n  %s]\n", it.Str("name"), strings.Join(rows, ",\n  ")), nil
 }
 
 type lnFunc struct {
